@@ -3,6 +3,7 @@ package c08
 
 import (
 	"fmt"
+	"regexp"
 	"strings"
 
 	"verif/core"
@@ -43,7 +44,7 @@ func Check(src string) tsrc.Outcome {
 		return o
 	}
 	o.Class = "differs:other"
-	if stripWS(a) == stripWS(b) {
+	if wsOnly(a) == wsOnly(b) {
 		o.Class = "differs:ws"
 	}
 	la, lb := firstDiff(a, b)
@@ -57,6 +58,20 @@ func bodyOf(src string) string {
 		return b
 	}
 	return src
+}
+
+var (
+	reLitIndex   = regexp.MustCompile(`WriteString\(templ_7745c5c3_Buffer, \d+, `)
+	emptyLitStmt = `templ_7745c5c3_Err=templruntime.WriteString(templ_7745c5c3_Buffer,0,"")iftempl_7745c5c3_Err!=nil{returntempl_7745c5c3_Err}`
+)
+
+// wsOnly erases everything by which two generated programs differ when they
+// only emit different amounts of whitespace: the running index of literal
+// writes, all whitespace (also inside string literals) and writes of literals
+// that consist of whitespace only. Used for the failure class, not the verdict.
+func wsOnly(s string) string {
+	s = reLitIndex.ReplaceAllString(s, "WriteString(templ_7745c5c3_Buffer, 0, ")
+	return strings.ReplaceAll(stripWS(s), emptyLitStmt, "")
 }
 
 func stripWS(s string) string {
